@@ -43,6 +43,9 @@ func c06Dsts() []DecJ {
 
 func ctxSnap(c *apd.Context) string { return fmt.Sprintf("%+v", *c) }
 
+// globalsDumpFn is set by the instrumented build (c18.go): deep dump of every package-level variable.
+var globalsDumpFn func() string
+
 // c06One: the outcome must be identical for every destination pre-state, operands and context unchanged.
 func c06One(o dop, xj, yj *DecJ, cc CtxCase, dsts []DecJ) (msg string, bad int) {
 	var base runOut
@@ -145,6 +148,23 @@ func c06Run(e *core.Env) {
 	}
 	var level2 []produced
 	seen := map[string]bool{}
+	globals0 := ""
+	if globalsDumpFn != nil {
+		globals0 = globalsDumpFn()
+		e.Note("package-level-snapshot-enabled")
+	} else {
+		panic("C06 must run in the instrumented build (package-level snapshot unavailable)")
+	}
+	checkGlobals := func(after string) bool {
+		e.TransOnly(1)
+		e.Outcome("globals/self-loop", false)
+		if g := globalsDumpFn(); g != globals0 {
+			e.Fail("globals", "globals", purityCase{Op: "package-level state", Hist: after}, "package-level variables changed "+after+": "+firstDiffStr(globals0, g))
+			globals0 = g
+			return false
+		}
+		return true
+	}
 	for ix := range xs {
 		mine := e.Mine(int64(ix))
 		if e.Expired() {
@@ -193,6 +213,30 @@ func c06Run(e *core.Env) {
 		}
 		if mine && e.WantSample() {
 			e.Sample(fmt.Sprintf("x=%s: %d operations x %d contexts x %d destination pre-states", xj.Val(), len(allDops), len(ctxs), len(dsts)))
+		}
+		if mine {
+			// the global-state graph must consist of self-loops only: one state, checked after every operand batch
+			checkGlobals(fmt.Sprintf("after all operations with first operand %s", xj.Val()))
+		}
+	}
+	// every single operation from the single reachable global state (a sample of operands, every operation, one context each)
+	for ix := 0; ix < len(xs); ix += 7 {
+		if !e.Mine(int64(ix / 7)) {
+			continue
+		}
+		xj := xs[ix]
+		for oi, o := range allDops {
+			cc := ctxs[(ix+oi)%len(ctxs)]
+			if skipP0(o, cc) || ((o.name == "Pow" || o.name == "Ln") && cc.C.Precision > 9) {
+				continue
+			}
+			var d apd.Decimal
+			var y *apd.Decimal
+			if o.nargs == 2 {
+				y = ys[(ix+oi)%len(ys)].Build()
+			}
+			runDop(o, cc.C, &d, xj.Build(), y)
+			checkGlobals(fmt.Sprintf("by %s(%s) p=%d", o.name, xj.Val(), cc.C.Precision))
 		}
 	}
 	// binary producers of unusual representations: overflowing Mul leaves a dirty infinity, NaN propagation copies coefficients
@@ -272,6 +316,30 @@ func c06Run(e *core.Env) {
 	}
 }
 
+func firstDiffStr(a, b string) string {
+	n := len(a)
+	if len(b) < n {
+		n = len(b)
+	}
+	i := 0
+	for i < n && a[i] == b[i] {
+		i++
+	}
+	lo := i - 80
+	if lo < 0 {
+		lo = 0
+	}
+	hi := i + 80
+	ca, cb := a, b
+	if hi < len(ca) {
+		ca = ca[:hi]
+	}
+	if hi < len(cb) {
+		cb = cb[:hi]
+	}
+	return fmt.Sprintf("at offset %d: ...%s... became ...%s...", i, ca[lo:], cb[lo:])
+}
+
 func rawJ(j DecJ) string {
 	return fmt.Sprintf("{form=%d neg=%v coef=%s exp=%d}", j.Form, j.Neg, j.Coef, j.Exp)
 }
@@ -283,6 +351,9 @@ func c06Replay(kind string, raw json.RawMessage) string {
 	var p purityCase
 	if err := json.Unmarshal(raw, &p); err != nil {
 		return "bad replay file"
+	}
+	if kind == "globals" {
+		return "re-run ./run.sh C06 (the package-level snapshot is compared across a batch of operations: " + p.Hist + ")"
 	}
 	o, ok := findDop(p.Op)
 	if !ok {
